@@ -47,6 +47,8 @@ var lineTemplates = []string{
 	"--  --", "-- --", "--", "-- ", " --", "-- -- --", "-- x", "x --", "-- x --y", ">-- x --", "-- > --",
 	"", "a", "hello world", "\r", "a\r", "-", "---", "-- \r --", "-- x\r --", "-- \xff --", "\xff\xfe", "-- é --", "--\t--", "--\tx\t--", "-- \t --",
 	"-- 100% --", "-- a%20b --", "-- %s --", "-- %v%d --\r", "-- x%!y --", "-- x -- \r", "-- x --\r\r", "-- -- x -- --", "-- a/b/c --", "-- ../x --", ">", ">>", "> -- x --",
+	// names that are nothing but white space other than blank and tab (no marker), or padded with it
+	"-- \v --", "-- \f --", "-- \u00a0 --", "-- \u0085 --", "-- \u2003 --", "-- \u3000\u00a0 --", "-- \v x \f --", "-- \u00a0x\u2003 --",
 }
 
 // RandomText builds a text of n lines from marker look-alike templates. Lines
